@@ -816,7 +816,7 @@ func TestC20(t *testing.T) {
 
 	nSmall := r.N(2600, 130000)
 	nLarge := r.N(400, 20000)
-	nStore := r.N(300, 6000)
+	nStore := r.N(1500, 30000)
 
 	types := []byte{'f', 'i', 'u', 's', 'b'}
 	caseNo := 0
